@@ -126,6 +126,10 @@ def run_case(args):
             card_x = sorted(set(card_x) | {round(10 ** rng.uniform(-3, -0.15), 4)})
         mids = [round(math.sqrt(a * b), 5) for a, b in zip(card_x, card_x[1:])]
         tgt_x = sorted(rng.sample(mids, rng.choice([2, len(mids)])))
+        if rng.random() < 0.25:
+            # a target grid of the card grid's own length whose nodes sit a relative 6e-6 off the card's
+            # (resolved by the printed precision 5e-7, and "close" for a tolerant comparison of grids)
+            tgt_x = [x * (1 + rng.choice([-6e-6, 6e-6])) for x in card_x[:-1]] + [1.0]
         xtable = sorted(set(card_x) | (set(tgt_x) if tgt else set()))
         rec["xs"] = [rank(x, xtable, 1e-9) for x in card_x]
         rec["tx"] = [rank(x, xtable, 1e-9) for x in (tgt_x if tgt else card_x)]
